@@ -13,8 +13,8 @@ type IndexInfo struct {
 	Addr  uintptr
 }
 
-func Index(qf qframe.QFrame) IndexInfo                { return IndexInfo{} }
-func CheckInvariants(qf qframe.QFrame) error         { return nil }
+func Index(qf qframe.QFrame) IndexInfo                  { return IndexInfo{} }
+func CheckInvariants(qf qframe.QFrame) error            { return nil }
 func AppendFloat64f(b []byte, f float64) ([]byte, bool) { return b, false }
 func RowHash(qf qframe.QFrame, cols []string, groupByNull bool, row int) (uint32, bool) {
 	return 0, false
